@@ -88,13 +88,20 @@ package sample
 
 // Sharing: every worker asking for the same key gets the instance created first;
 // a new key gets a new instance, stored under that key, and no other entry changes.
-//@ contract sample.getSharedDynsamplerAndRecorder props C12 localcalls
+// The registry is shared by all workers and guarded by the factory mutex: lookup and insertion must be one
+// critical section (if the lock is given up in between, another worker may insert first: the executor then
+// treats the guarded fields as arbitrary when the lock is taken again, and the postconditions fail).
+//@ guarded_by sample.SamplerFactory.mutex: sharedDynsamplers
+//@ contract sample.getSharedDynsamplerAndRecorder props C12,C35 localcalls
+//@   assert locks
 //@   requires s != nil
+//@   requires[lock-free-at-entry] s.mutex == 0
+//@   ensures[lock-released] s.mutex == 0
 //@   ghostupdate registryKey(s) :: registryKey(s) == dynsamplerKey
 //@   ensures[same-key-same-instance] in(old(s.sharedDynsamplers), dynsamplerKey) && implements(old(s.sharedDynsamplers)[dynsamplerKey].dynsampler, ST) ==> s.sharedDynsamplers == old(s.sharedDynsamplers) && result1 == old(s.sharedDynsamplers)[dynsamplerKey].recorder
 //@   ensures[new-key-new-entry] !in(old(s.sharedDynsamplers), dynsamplerKey) ==> in(s.sharedDynsamplers, dynsamplerKey) && s.sharedDynsamplers[dynsamplerKey].recorder == result1 && isFresh(result1)
 //@   ensures[other-entries-untouched] forall k string :: k != dynsamplerKey ==> in(s.sharedDynsamplers, k) == in(old(s.sharedDynsamplers), k) && s.sharedDynsamplers[k] == old(s.sharedDynsamplers)[k]
-//@   modifies s.sharedDynsamplers
+//@   modifies s.sharedDynsamplers, s.mutex
 
 // The isolation clause "share state only if their entire configurations are identical":
 // the registry key of a DynamicSampler definition is computed from the prefix, the
